@@ -699,6 +699,71 @@ pub fn reconcile_open(host: &mut Host, rh: &mut [Option<Handle>], mh: &mut [Opti
     }
 }
 
+/// What a lock-step interpreter needs from "the real side" of one host.  The
+/// direct implementation is [`RealHost`]; the Sim-mode implementation of C07
+/// forwards every call to the software running inside a `turmoil::Sim` host.
+pub trait RealBackend {
+    /// Execute one concretised op (see [`exec_real`]).
+    fn exec(&mut self, op: &Op, cur: usize, data: &[u8]) -> io::Result<Res>;
+    /// Scan the whole universe through the std shim.
+    fn scan(&mut self) -> Vec<(bool, Seen)>;
+    fn has_slot(&self, slot: usize) -> bool;
+    fn close_slot(&mut self, slot: usize);
+    /// Seek the handle in `slot` to an absolute position (cursor resync).
+    fn seek_slot(&mut self, slot: usize, pos: u64);
+    /// Crash the host: all handles of the dead software are gone, the
+    /// filesystem keeps its durable image.  After this call the backend is
+    /// ready for more ops (Sim mode: the host has been bounced).
+    fn crash(&mut self);
+    /// Close everything (end of the case).
+    fn shutdown(&mut self);
+}
+
+/// [`reconcile_open`] for a [`RealBackend`].
+pub fn reconcile_open_backend(real: &mut dyn RealBackend, mh: &mut [Option<MHandle>], slot: u8) {
+    let s = (slot as usize) % mh.len().max(1);
+    if real.has_slot(s) != mh[s].is_some() {
+        real.close_slot(s);
+        mh[s] = None;
+    }
+}
+
+impl RealBackend for RealHost {
+    fn exec(&mut self, op: &Op, cur: usize, data: &[u8]) -> io::Result<Res> {
+        exec_real(&mut self.host, &mut self.handles, op, cur, data)
+    }
+    fn scan(&mut self) -> Vec<(bool, Seen)> {
+        self.host.enter(scan_real)
+    }
+    fn has_slot(&self, slot: usize) -> bool {
+        self.handles[slot].is_some()
+    }
+    fn close_slot(&mut self, slot: usize) {
+        if let Some(h) = self.handles[slot].take() {
+            self.host.enter(|e| e.close(h));
+        }
+    }
+    fn seek_slot(&mut self, slot: usize, pos: u64) {
+        if let Some(rh) = self.handles[slot].as_mut() {
+            let _ = self.host.enter(|e| e.seek(Fe::Std, rh, SeekFrom::Start(pos)));
+        }
+    }
+    fn crash(&mut self) {
+        self.host.crash();
+        // the software that held the handles is dead; dropping a File after
+        // the crash only removes its fd from the open-handle table
+        let hs: Vec<Handle> = self.handles.iter_mut().filter_map(|s| s.take()).collect();
+        self.host.enter(|e| {
+            for h in hs {
+                e.close(h);
+            }
+        });
+    }
+    fn shutdown(&mut self) {
+        RealHost::shutdown(self)
+    }
+}
+
 /// A real host (one `Fs` + io_uring state) with its handle table.
 pub struct RealHost {
     pub host: Host,
